@@ -1,6 +1,8 @@
 (* Impl model of fadt.rs (uses gas.rs).  Case vocabulary: see Spec/FadtS.v.
    FADTBuilder is one #[repr(C, packed)] struct of 276 bytes (header fields included), Copy; the builder methods assign
-   fields; finalize() zeroes the checksum byte, computes generate_checksum over as_bytes() and stores it.
+   fields; its fields are `pub` (except _reserved0 / _reserved1) and callers also assign them directly
+   (`b.sci_int = 9.into()`, `b.reset_reg = GAS::new(..)`); finalize() zeroes the checksum byte, computes generate_checksum
+   over as_bytes() and stores it.
    The state of a history is the FADTBuilder value; an observation finalizes a copy and serialises the resulting FADT. *)
 From Coq Require Import NArith List Bool.
 From ACPI Require Import Lib.Bytes Lib.Sx Lib.Machine Impl.Checksum Impl.Table Impl.Fields Impl.Run Impl.Madt Impl.Gas.
@@ -69,7 +71,40 @@ Definition flag_bits (i : N) : option N :=
        | _ => None
        end.
 
-(* the nine builder methods *)
+(* direct assignment of a public scalar field, `b.<field> = (v as uN).into()`: (field index, width in bytes = size of the
+   field's type) of the k-th `pub` integer field after the header, in declaration order:
+   firmware_ctrl dsdt preferred_pm_profile sci_int smi_cmd acpi_enable acpi_disable s4bios_req pstate_cnt pm1a_evt_blk
+   pm1b_evt_blk pm1a_cnt_blk pm1b_cnt_blk pm2_cnt_blk pm_tmr_blk gpe0_blk gpe1_blk pm1_evt_len pm1_cnt_len pm2_cnt_len
+   pm_tmr_len gpe0_blk_len gpe1_blk_len gpe1_base cst_cnt p_lvl2_lat p_lvl3_lat flush_size flush_stride duty_offset duty_width
+   day_alrm mon_alrm century iapc_boot_arch flags reset_value arm_boot_arch fadt_minor_version x_firmware_ctrl x_dsdt
+   hypervisor_vendor_identity *)
+Definition FADT_ASSIGNABLE : list (nat * nat) :=
+  [(30, 4); (31, 4); (33, 1); (34, 2); (35, 4); (36, 1); (37, 1); (38, 1); (39, 1); (40, 4);
+   (41, 4); (42, 4); (43, 4); (44, 4); (45, 4); (46, 4); (47, 4); (48, 1); (49, 1); (50, 1);
+   (51, 1); (52, 1); (53, 1); (54, 1); (55, 1); (56, 2); (57, 2); (58, 2); (59, 2); (60, 1); (61, 1);
+   (62, 1); (63, 1); (64, 1); (65, 2); (67, 4); (73, 1); (74, 2); (75, 1); (76, 8); (77, 8);
+   (128, 8)]%nat.
+
+(* the value is converted to the field's type first (`v as uN`) *)
+Definition fadt_assign_m (f : flds) (k v : N) : option flds :=
+  match nth_error FADT_ASSIGNABLE (N.to_nat k) with
+  | Some (i, w) => Some (fset f i (v mod 2 ^ (8 * N.of_nat w)))
+  | None => None
+  end.
+
+(* direct assignment of a GAS-typed public field, `b.<field> = GAS::new(space, width, offset, access, addr)`: index of the
+   first of the five fields of the g-th GAS in declaration order:
+   reset_reg x_pm1a_evt_blk x_pm1b_evt_blk x_pm1a_cnt_blk x_pm1b_cnt_blk x_pm2_cnt_blk x_pm_tmr_blk x_gpe0_blk x_gpe1_blk
+   sleep_control_reg sleep_status_reg *)
+Definition FADT_GAS_FIELDS : list nat := [68; 78; 83; 88; 93; 98; 103; 108; 113; 118; 123]%nat.
+
+Definition fadt_assign_gas_m (f : flds) (g sp bw bo ac addr : N) : option flds :=
+  match nth_error FADT_GAS_FIELDS (N.to_nat g) with
+  | Some i => Some (fset_seq f i (fvals (gas_new sp bw bo ac addr)))
+  | None => None
+  end.
+
+(* the nine builder methods; the direct assignments *)
 Definition fadt_builder (f : flds) (o : sx) : option flds :=
   match o with
   | SL [SA 1; SA x] => Some (fset (fset f I_DSDT x) I_X_DSDT 0)                                 (* dsdt_32 *)
@@ -82,6 +117,8 @@ Definition fadt_builder (f : flds) (o : sx) : option flds :=
   | SL [SA 8; SA g0; SA g1; SA l0; SA l1; SA base] =>                                            (* gpe_info *)
       Some (fset (fset (fset (fset (fset f I_GPE0_BLK g0) I_GPE1_BLK g1) I_GPE0_BLK_LEN l0) I_GPE1_BLK_LEN l1) I_GPE1_BASE base)
   | SL [SA 9; SA p] => if p <=? 8 then Some (fset f I_PM_PROFILE p) else None                   (* preferred_pm_profile(PmProfile) *)
+  | SL [SA 10; SA k; SA v] => fadt_assign_m f k v                                               (* b.<field k> = v *)
+  | SL [SA 11; SA g; SA sp; SA bw; SA bo; SA ac; SA addr] => fadt_assign_gas_m f g sp bw bo ac addr   (* b.<gas g> = GAS::new(..) *)
   | _ => None
   end.
 
